@@ -39,20 +39,27 @@ struct Value {
     static std::vector<Value> parse_args(const std::vector<const char*> args) {
         std::vector<Value> result;
         std::string accum = "";
+        int depth = 0; // open brackets in accum
+        auto bracket_balance = [](const char* w) { int d = 0; for (; *w; ++w) d += (*w == '[') - (*w == ']'); return d; };
         for (auto& v : args) {
             size_t vlen = strlen(v);
-            if (accum != "") {
+            if (depth > 0) {
+                // inside a bracketed sub-script that spans several words
                 accum += std::string(" ") + v;
-                if (vlen > 0 && v[vlen-1] == ']') {
-                    result.emplace_back(accum.c_str(), accum.length() - 1);
+                depth += bracket_balance(v);
+                if (depth <= 0) {
+                    result.emplace_back(accum.c_str(), accum.length());
                     accum = "";
-                    continue;
+                    depth = 0;
                 }
+                continue;
             }
             if (vlen > 0) {
                 // brackets embed
-                if (v[0] == '[' && v[vlen-1] != ']') {
-                    accum = &v[1];
+                int d = bracket_balance(v);
+                if (v[0] == '[' && d > 0) {
+                    accum = v;
+                    depth = d;
                     continue;
                 }
                 result.emplace_back(v, vlen);
